@@ -19,3 +19,33 @@ Definition builtin_registry_ok : bool :=
 
 Lemma gen_builtin_registry_ok : builtin_registry_ok = true.
 Proof. vm_compute. reflexivity. Qed.
+
+Require Import UPV.Proofs.Kind_proofs UPV.Proofs.Factory_proofs UPV.Proofs.Pipeline_proofs.
+
+Lemma lookup_In name (reg : registry) e : lookup name reg = Some e -> exists n, In (n, e) reg.
+Proof.
+  induction reg as [|[n' e'] reg IH]; simpl; [discriminate|].
+  destruct (String.eqb name n').
+  - intros H; inversion H; subst. exists n'. now left.
+  - intros H. destruct (IH H) as [n Hn]. exists n. now right.
+Qed.
+
+(* every built-in engine declares its supported kind at the LATEST version *)
+Lemma builtin_versions n e :
+  lookup n builtin_engines = Some e -> version gen_tables (e_supported e) = LATEST_PROBLEM_KIND_VERSION.
+Proof.
+  intros L. destruct (lookup_In _ _ _ L) as [n' Hin].
+  pose proof gen_builtin_registry_ok as H. unfold builtin_registry_ok in H.
+  rewrite !andb_true_iff in H. destruct H as [[H _] _]. rewrite forallb_forall in H.
+  specialize (H _ Hin). cbn [snd] in H. rewrite !andb_true_iff in H.
+  destruct H as [[[[_ H] _] _] _]. now apply N.eqb_eq.
+Qed.
+
+Lemma builtin_pipeline_accepts prefs cks k0 steps final actual :
+  pipeline gen_tables builtin_engines prefs None cks k0 = Pipe steps final ->
+  k_ver k0 = Some LATEST_PROBLEM_KIND_VERSION ->
+  Forall2 (within gen_tables LATEST_PROBLEM_KIND_VERSION) actual steps ->
+  Forall2 (accepted gen_tables) actual steps.
+Proof.
+  intros P V F. eapply pipeline_accepts; eauto. intros n e L. exact (builtin_versions n e L).
+Qed.
